@@ -1,5 +1,5 @@
-(* C09 for WHOLE SHEETS: with no import sign and host conversion off, for every well-shaped token
-   tree of every size and depth on which the specification finds every rule complete, the
+(* C09 for WHOLE SHEETS and EVERY option set (import sign and host conversion included), for every
+   well-shaped token tree of every size and depth on which the specification finds every rule complete, the
    sequence of identifiers and sign comments of the normal output is exactly the specification's
    (CssSpec.expected): every identifier after a `.` in selector context - in qualified rules, in the
    blocks of at-rule preludes, at every depth of selector functions, inside every rule-bearing
@@ -9,6 +9,7 @@
    `rules` and the specification `rules_spec` consume in lockstep. *)
 From GE Require Import Model.Str Model.CssNum Model.CssTok Model.CssOut Model.CssUrlEnc Model.Css Model.CssSpec.
 From GE Require Import Proofs.CssOutProofs Proofs.CssWalkProofs Proofs.CssTokProofs Proofs.CssClassProofs.
+From GE Require Proofs.CssRuleProofs Proofs.CssHostSpec.
 From Coq Require Import Lia Bool.
 Open Scope N_scope.
 
@@ -195,17 +196,18 @@ Section AtPrelude.
 Variables (o : opts) (rec : list node -> pos -> wstate -> wstate) (contain : bool) (mark : nat * nat).
 Variable inner : list node -> list etok.
 Variable good : list node -> Prop.
-Hypothesis Hrec : forall body be s, shaped body = true -> good body -> IExt (eidc (inner body)) s (rec body be s).
+Hypothesis Hrec : forall body be s, shaped body = true -> good body -> w_using_low s = false ->
+  IExt (eidc (inner body)) s (rec body be s).
 
 Lemma at_prelude_vs_spec : forall l st prelude tm rest,
-  shaped l = true ->
+  shaped l = true -> w_using_low st = false ->
   take_prelude true l = (prelude, Some tm, rest) ->
   (forall t p body e c, tm = Block t p body e c -> contain = true -> good body) ->
   fst (at_prelude o rec contain mark l st) = rest /\
   IExt (eidc (at_prelude_spec o prelude ++ term_spec o contain inner tm)) st
        (snd (at_prelude o rec contain mark l st)).
 Proof.
-  induction l as [|x r IH]; intros st prelude tm rest Hs E Hg; [discriminate E|].
+  induction l as [|x r IH]; intros st prelude tm rest Hs Hu E Hg; [discriminate E|].
   destruct (shaped_cons _ _ Hs) as [Hsx Hsr].
   cbn [take_prelude] in E. cbn [at_prelude].
   destruct (take_prelude true r) as [[p' t'] rest'] eqn:Er.
@@ -217,7 +219,8 @@ Proof.
              IExt (eidc (at_prelude_spec o prelude ++ term_spec o contain inner tm)) st
                   (snd (at_prelude o rec contain mark r st1))).
   { intros st1 X E' HX EX. inversion E'; subst.
-    destruct (IH st1 p' tm rest' Hsr eq_refl Hg) as [A B]. split; [exact A|].
+    assert (Hu1 : w_using_low st1 = false) by (rewrite (proj1 HX); exact Hu).
+    destruct (IH st1 p' tm rest' Hsr Hu1 eq_refl Hg) as [A B]. split; [exact A|].
     eapply IExt_eq; [eapply IExt_trans; [exact HX | exact B]|].
     rewrite (at_prelude_spec_cons o x p'), !eidc_app, app_assoc. reflexivity. }
   destruct (is_ws_or_comment (node_tok x)) eqn:Ew.
@@ -256,10 +259,186 @@ Proof.
     rewrite !eidc_app. change (eidc []) with (@nil tok). cbn [app].
     eapply IExt_trans; [apply IExt_tok_at|]. eapply IExt_trans; [|apply IExt_tok_at].
     destruct contain.
-    + apply Hrec; [exact Hsb | eapply Hg; reflexivity].
+    + apply Hrec; [exact Hsb | eapply Hg; reflexivity|].
+      rewrite (proj1 (IExt_tok_at _ TCurly p None)). exact Hu.
     + unfold val_spec. apply IExt_rpx_body. exact Hsb.
 Qed.
 End AtPrelude.
+
+(* ---------------------------------------------------------------- @import with a sign *)
+
+(* a prelude of an at-rule: no `{}` block and no `;` at its top level *)
+Fixpoint no_term (l : list node) : bool :=
+  match l with
+  | [] => true
+  | Block TCurly _ _ _ _ :: _ => false
+  | Leaf TSemi _ :: _ => false
+  | _ :: r => no_term r
+  end.
+
+Lemma no_term_cons : forall x r, no_term (x :: r) = true -> no_term r = true.
+Proof.
+  intros x r H. destruct x as [t p|open p b e c]; cbn [no_term] in H.
+  - destruct t; try exact H; discriminate.
+  - destruct open; try exact H; discriminate.
+Qed.
+
+Lemma take_prelude_true_spec : forall l prelude term rest,
+  take_prelude true l = (prelude, term, rest) ->
+  no_term prelude = true /\
+  match term with
+  | Some (Block TCurly pb body e c) => l = prelude ++ Block TCurly pb body e c :: rest
+  | Some (Leaf TSemi ps) => l = prelude ++ Leaf TSemi ps :: rest
+  | Some _ => False
+  | None => l = prelude /\ rest = []
+  end.
+Proof.
+  induction l as [|x r IH]; intros prelude term rest E; [inversion E; split; [reflexivity | split; reflexivity]|].
+  cbn [take_prelude] in E.
+  destruct (take_prelude true r) as [[p' t'] rest'] eqn:Er.
+  destruct (IH p' t' rest' eq_refl) as [Hn Hm].
+  assert (Go : no_term [x] = true -> (x :: p', t', rest') = (prelude, term, rest) ->
+               no_term prelude = true /\
+               match term with
+               | Some (Block TCurly pb body e c) => x :: r = prelude ++ Block TCurly pb body e c :: rest
+               | Some (Leaf TSemi ps) => x :: r = prelude ++ Leaf TSemi ps :: rest
+               | Some _ => False
+               | None => x :: r = prelude /\ rest = []
+               end).
+  { intros Hx E'. inversion E'; subst. split.
+    - destruct x as [t p|xo p b e c]; cbn [no_term] in *; [destruct t; try exact Hn; discriminate Hx | destruct xo; try exact Hn; discriminate Hx].
+    - destruct term as [[tt tp|bo bp bb be bc]|].
+      + destruct tt; try exact Hm. cbn [app]. rewrite Hm. reflexivity.
+      + destruct bo; try exact Hm. cbn [app]. rewrite Hm. reflexivity.
+      + destruct Hm as [A B]. split; [rewrite A; reflexivity | exact B]. }
+  destruct x as [t p|open p body e c].
+  - destruct t; try (apply Go; [reflexivity | exact E]).
+    inversion E; subst. split; reflexivity.
+  - destruct open; try (apply Go; [reflexivity | exact E]).
+    inversion E; subst. split; reflexivity.
+Qed.
+
+Section Import.
+Variables (o : opts) (tail : list node).
+(* what follows the prelude: nothing, or the `;` and the rest of the sheet *)
+Hypothesis tail_form : tail = [] \/ exists ps r, tail = Leaf TSemi ps :: r.
+Let after_tail : list node := match tail with Leaf TSemi _ :: r => r | _ => [] end.
+
+Lemma import_media_vs_spec : forall m wpos st,
+  shaped m = true -> no_term m = true ->
+  fst (import_media o (m ++ tail) wpos st) = Some after_tail /\
+  IExt (eidc (at_prelude_spec o m)) st (snd (import_media o (m ++ tail) wpos st)).
+Proof.
+  induction m as [|x r IH]; intros wpos st Hs Hn.
+  { cbn [app at_prelude_spec]. unfold after_tail.
+    destruct tail_form as [-> | [ps [r ->]]]; cbn [import_media node_tok is_ws_or_comment fst snd]; split; try reflexivity; apply IExt_refl. }
+  destruct (shaped_cons _ _ Hs) as [_ Hsr]. pose proof (no_term_cons _ _ Hn) as Hnr.
+  cbn [app import_media]. rewrite (at_prelude_spec_cons o x r), eidc_app.
+  assert (Go : forall st1, IExt (eidc (at_prelude_spec o [x])) st st1 ->
+             fst (import_media o (r ++ tail) wpos st1) = Some after_tail /\
+             IExt (eidc (at_prelude_spec o [x]) ++ eidc (at_prelude_spec o r)) st (snd (import_media o (r ++ tail) wpos st1))).
+  { intros st1 H1. destruct (IH wpos st1 Hsr Hnr) as [A B]. split; [exact A | eapply IExt_trans; [exact H1 | exact B]]. }
+  destruct (is_ws_or_comment (node_tok x)) eqn:Ew.
+  { apply Go. cbn [at_prelude_spec]. rewrite Ew. apply IExt_refl. }
+  destruct x as [t p|open p body e c].
+  - cbn [node_tok] in Ew. destruct t; try discriminate Ew; try discriminate Hn;
+      try (apply Go; cbn [at_prelude_spec node_tok]; rewrite ?Ew; cbn [is_ws_or_comment]; rewrite app_nil_r; apply IExt_tok_at).
+    apply Go. cbn [at_prelude_spec node_tok is_ws_or_comment]. rewrite app_nil_r, eidc_rpx_tok. apply (IExt_tok_at st (TDim n u)).
+  - destruct (shaped_blk _ _ _ _ _ _ Hs) as [Ho [Hsb _]].
+    destruct open; try discriminate Ho; try discriminate Hn;
+      (apply Go; cbn [at_prelude_spec node_tok]; cbn [node_tok] in Ew; rewrite Ew, app_nil_r, !eidc_app;
+       eapply IExt_trans; [apply IExt_tok_at|]; eapply IExt_trans; [|apply IExt_tok_at];
+       unfold sel_spec; apply IExt_cn_body; [exact Hsb | reflexivity]).
+Qed.
+
+(* the conditions: the model on prelude ++ tail against the specification on the prelude.  `X` = the identifiers and
+   comments the specification's condition tokens contain; `rest_s` = what the specification leaves for the media query *)
+Definition closers (closes : list (tok * pos)) : Prop := Forall (fun c => fst c = TCloseCurly) closes.
+
+Definition conds_post (rest_s : list node) (X : list tok) (res : imp_conds) (st : wstate) : Prop :=
+  match rest_s with
+  | [] => exists closes' st', res = ImpGo after_tail false closes' st' /\ IExt X st st' /\ closers closes'
+  | Leaf (TIdent _) _ :: _ | Block TParen _ _ _ _ :: _ =>
+      exists closes' st', res = ImpGo (rest_s ++ tail) true closes' st' /\ IExt X st st' /\ closers closes' /\
+                          shaped rest_s = true /\ no_term rest_s = true
+  | _ => True
+  end.
+
+Lemma conds_post_step : forall rest_s X Y res st st1,
+  IExt X st st1 -> conds_post rest_s Y res st1 -> conds_post rest_s (X ++ Y) res st.
+Proof.
+  intros rest_s X Y res st st1 HX R. unfold conds_post in *.
+  destruct rest_s as [|y ys]; [destruct R as [c' [s' [A [B C]]]]; eexists _, _; split; [exact A | split; [eapply IExt_trans; [exact HX | exact B] | exact C]]|].
+  destruct y as [ty py|oy py by_ ey cy].
+  - destruct ty; try exact I. destruct R as [c' [s' [A [B C]]]]. eexists _, _. split; [exact A|]. split; [eapply IExt_trans; [exact HX | exact B] | exact C].
+  - destruct oy; try exact I. destruct R as [c' [s' [A [B C]]]]. eexists _, _. split; [exact A|]. split; [eapply IExt_trans; [exact HX | exact B] | exact C].
+Qed.
+
+Lemma import_conds_vs_spec : forall l closes st first,
+  shaped l = true -> no_term l = true ->
+  (first = true <-> closes = []) -> closers closes ->
+  conds_post (snd (import_conds_spec o l first)) (eidc (fst (fst (import_conds_spec o l first))))
+             (import_conds o (l ++ tail) closes st) st.
+Proof.
+  induction l as [|x r IH]; intros closes st first Hs Hn Hf Hcl.
+  { cbn [import_conds_spec app fst snd conds_post]. unfold after_tail.
+    destruct tail_form as [-> | [ps [r ->]]]; cbn [import_conds node_tok is_ws_or_comment];
+      eexists _, _; (split; [reflexivity | split; [apply IExt_refl | exact Hcl]]). }
+  destruct (shaped_cons _ _ Hs) as [_ Hsr]. pose proof (no_term_cons _ _ Hn) as Hnr.
+  cbn [app import_conds import_conds_spec].
+  destruct (is_ws_or_comment (node_tok x)) eqn:Ew; [apply IH; assumption|].
+  (* a condition: continue with first = false and one more closer *)
+  assert (Step : forall p1 st1, conds_post (snd (import_conds_spec o r false)) (eidc (fst (fst (import_conds_spec o r false))))
+                                           (import_conds o (r ++ tail) ((TCloseCurly, p1) :: closes) st1) st1).
+  { intros p1 st1.
+    assert (Hff : false = true <-> (TCloseCurly, p1) :: closes = []) by (split; intro Hx; discriminate Hx).
+    apply (IH ((TCloseCurly, p1) :: closes) st1 false Hsr Hnr Hff). constructor; [reflexivity | exact Hcl]. }
+  destruct x as [t p|open p body e c].
+  - cbn [node_tok] in Ew.
+    destruct t; try exact I; try discriminate Ew.
+    (* an identifier: the bare `layer` keyword, or the start of the media query *)
+    assert (Ef : (match closes with [] => str_eqb_ci s s_layer | _ :: _ => false end) = (first && str_eqb_ci s s_layer)).
+    { destruct first.
+      - rewrite (proj1 Hf eq_refl). reflexivity.
+      - destruct closes; [discriminate (proj2 Hf eq_refl) | reflexivity]. }
+    rewrite Ef. destruct (first && str_eqb_ci s s_layer).
+    + pose proof (Step p (tok_at (tok_at st (TAt s) p (Some (TIdent s))) TCurly p None)) as R.
+      destruct (import_conds_spec o r false) as [[t k] rest_s]. cbv beta iota zeta. cbn [fst snd] in *.
+      change (eidc (mke GFree (TAt s) :: mke GFree TCurly :: t)) with (eidc ([mke GFree (TAt s); mke GFree TCurly] ++ t)).
+      rewrite eidc_app. eapply conds_post_step; [|exact R].
+      change (eidc [mke GFree (TAt s); mke GFree TCurly]) with (idc [TAt s] ++ idc [TCurly]).
+      eapply IExt_trans; apply IExt_tok_at.
+    + cbn [fst snd conds_post]. eexists _, _. split; [reflexivity|]. split; [apply IExt_refl|]. split; [exact Hcl|]. split; [exact Hs | exact Hn].
+  - destruct (shaped_blk _ _ _ _ _ _ Hs) as [Ho [Hsb _]]. cbn [node_tok] in Ew.
+    destruct open; try exact I; try discriminate Ho.
+    + (* a function: layer(..) / supports(..) *)
+      destruct (str_eqb_ci s s_layer).
+      * pose proof (Step p
+                      (tok_at (rpx_body o false body None (tok_at st (TAt s) p (Some (TFunc s)))) TCurly p None)) as R.
+        destruct (import_conds_spec o r false) as [[t k] rest_s]. cbv beta iota zeta. cbn [fst snd] in *.
+        replace (eidc (mke GFree (TAt s) :: val_spec o false body None false ++ mke GFree TCurly :: t))
+          with (eidc ([mke GFree (TAt s)] ++ val_spec o false body None false ++ [mke GFree TCurly]) ++ eidc t)
+          by (rewrite <- eidc_app, <- !app_assoc; reflexivity).
+        eapply conds_post_step; [|exact R].
+        rewrite !eidc_app. eapply IExt_trans; [apply (IExt_tok_at st (TAt s))|]. eapply IExt_trans; [|apply IExt_tok_at].
+        unfold val_spec. apply IExt_rpx_body. exact Hsb.
+      * destruct (str_eqb_ci s s_supports); [|exact I].
+        pose proof (Step p
+                      (tok_at (tok_at (cn_body o body true false false (tok_at (tok_at st (TAt s) p (Some (TFunc s))) TParen p None)) TCloseParen p None) TCurly p None)) as R.
+        destruct (import_conds_spec o r false) as [[t k] rest_s]. cbv beta iota zeta. cbn [fst snd] in *.
+        replace (eidc (mke GFree (TAt s) :: mke GFree TParen :: sel_spec o true body true false false false ++ mke GFree TCloseParen :: mke GFree TCurly :: t))
+          with (eidc ([mke GFree (TAt s); mke GFree TParen] ++ sel_spec o true body true false false false ++ [mke GFree TCloseParen; mke GFree TCurly]) ++ eidc t)
+          by (rewrite <- eidc_app, <- !app_assoc; reflexivity).
+        eapply conds_post_step; [|exact R].
+        rewrite !eidc_app.
+        change (eidc [mke GFree (TAt s); mke GFree TParen]) with (idc [TAt s] ++ idc [TParen]).
+        change (eidc [mke GFree TCloseParen; mke GFree TCurly]) with (idc [TCloseParen] ++ idc [TCurly]).
+        eapply IExt_trans; [eapply IExt_trans; apply IExt_tok_at|]. eapply IExt_trans; [|eapply IExt_trans; apply IExt_tok_at].
+        unfold sel_spec. apply IExt_cn_body; [exact Hsb | reflexivity].
+    + (* a parenthesised media feature starts the media query *)
+      cbn [fst snd conds_post]. eexists _, _. split; [reflexivity|]. split; [apply IExt_refl|]. split; [exact Hcl|]. split; [exact Hs | exact Hn].
+Qed.
+End Import.
 
 (* ---------------------------------------------------------------- whole sheets *)
 
@@ -272,12 +451,149 @@ Proof.
   destruct (is_ws_or_comment (node_tok y)) eqn:E; [exact IH | cbn [skip_ws]; rewrite E; reflexivity].
 Qed.
 
+(* ---- helpers for the @import and :host branches ---- *)
+
+Lemma eidc_repeat_close : forall k, eidc (repeat (mke GFree TCloseCurly) k) = [].
+Proof. induction k as [|k IH]; [reflexivity | cbn [repeat]; exact IH]. Qed.
+
+Lemma IExt_close_all : forall closes st, closers closes -> IExt [] st (close_all closes st).
+Proof.
+  unfold close_all. induction closes as [|c cl IH]; intros st H; [apply IExt_refl|].
+  cbn [fold_left]. inversion H as [|? ? Hc Hr]; subst.
+  eapply IExt_eq; [eapply IExt_trans; [apply (IExt_tok_at st (fst c)) | apply IH; exact Hr]|].
+  rewrite Hc. reflexivity.
+Qed.
+
+Lemma IExt_warn : forall st k p, IExt [] st (warn st k p).
+Proof. intros. split; [reflexivity | unfold iout, cur_out; cbn; rewrite app_nil_r; reflexivity]. Qed.
+
+Lemma conds_rest_skip : forall o l first, skip_ws (snd (import_conds_spec o l first)) = snd (import_conds_spec o l first).
+Proof.
+  intros o l. induction l as [|x r IH]; intro first; [reflexivity|]. cbn [import_conds_spec].
+  destruct (is_ws_or_comment (node_tok x)) eqn:Ew; [apply IH|].
+  assert (Stop : skip_ws (x :: r) = x :: r) by (cbn [skip_ws]; rewrite Ew; reflexivity).
+  destruct x as [t p|open p body e c].
+  - destruct t; try exact Stop. destruct (first && str_eqb_ci s s_layer); [|exact Stop].
+    specialize (IH false). destruct (import_conds_spec o r false) as [[t k] rest]. exact IH.
+  - destruct open; try exact Stop.
+    destruct (str_eqb_ci s s_layer); [specialize (IH false); destruct (import_conds_spec o r false) as [[t k] rest]; exact IH|].
+    destruct (str_eqb_ci s s_supports); [specialize (IH false); destruct (import_conds_spec o r false) as [[t k] rest]; exact IH | exact Stop].
+Qed.
+
+(* the target of the import: the specification on the prelude, the model on prelude ++ tail *)
+Lemma import_target_app : forall prelude tail path r1,
+  shaped prelude = true -> no_term prelude = true ->
+  spec_import_target prelude = Some (path, r1) ->
+  import_target (prelude ++ tail) = Some (path, r1 ++ tail) /\ shaped r1 = true /\ no_term r1 = true.
+Proof.
+  induction prelude as [|x r IH]; intros tail path r1 Hs Hn E; [discriminate E|].
+  destruct (shaped_cons _ _ Hs) as [_ Hsr]. pose proof (no_term_cons _ _ Hn) as Hnr.
+  unfold spec_import_target, import_target in *. cbn [app skip_ws] in *.
+  destruct (is_ws_or_comment (node_tok x)) eqn:Ew; [apply IH; assumption|].
+  destruct x as [t p|open p body e c].
+  - destruct t; try discriminate E; inversion E; subst; (split; [reflexivity | split; assumption]).
+  - destruct open; try discriminate E.
+    destruct (str_eqb_ci s s_url); [|discriminate E].
+    destruct (skip_ws body) as [|y b2]; [discriminate E|].
+    destruct y as [t2 p2|? ? ? ? ?]; [|discriminate E]. destruct t2; try discriminate E.
+    destruct (all_ws b2) eqn:Ea; [|discriminate E]. inversion E; subst.
+    assert (Hk : skip_ws b2 = []).
+    { clear - Ea. induction b2 as [|z b IHb]; [reflexivity|]. cbn [all_ws forallb] in Ea. apply andb_prop in Ea. destruct Ea as [A B].
+      cbn [skip_ws]. rewrite A. apply IHb. exact B. }
+    rewrite Hk. split; [reflexivity | split; assumption].
+Qed.
+
+Lemma no_curly_equiv : forall l, no_curly l = true -> CssHostSpec.no_curly l = true.
+Proof.
+  induction l as [|x r IH]; intro H; [reflexivity|]. unfold CssHostSpec.no_curly. cbn [forallb].
+  destruct x as [t p|open p b e c]; cbn [no_curly] in H.
+  - cbn [CssHostSpec.is_curly_block negb andb]. apply IH. exact H.
+  - destruct open; try discriminate H; cbn [CssHostSpec.is_curly_block negb andb]; apply IH; exact H.
+Qed.
+
+Lemma host_emit_IExt : forall o st p body, w_using_low st = false -> IExt [] st (host_emit o st p body).
+Proof.
+  intros o st p body Hu. split.
+  - rewrite Hu. reflexivity.
+  - unfold iout, cur_out. rewrite Hu.
+    replace (w_using_low (host_emit o st p body)) with false by reflexivity.
+    rewrite CssRuleProofs.host_emit_normal_unchanged, app_nil_r. reflexivity.
+Qed.
+
+(* `@import` with a sign: whenever the specification accepts the prelude, the model consumes the rule up to its `;` (or the
+   end of the list) and writes exactly the identifiers / comments of the specification's wrappers and placeholder *)
+Lemma import_try_vs_spec : forall o sign spos prelude tail endp st toks,
+  (tail = [] \/ exists ps r0, tail = Leaf TSemi ps :: r0) ->
+  shaped prelude = true -> no_term prelude = true ->
+  import_spec o sign prelude = Some toks ->
+  exists st', import_try o sign spos (prelude ++ tail) endp st =
+                (Some (match tail with Leaf TSemi _ :: r0 => r0 | _ => [] end), st') /\
+              IExt (eidc toks) st st'.
+Proof.
+  intros o sign spos prelude tail endp st0 toks Htf Hsp Hnt Es.
+  unfold import_spec in Es.
+  destruct (spec_import_target prelude) as [[path r1]|] eqn:Etg; [|discriminate Es].
+  destruct (import_target_app prelude tail path r1 Hsp Hnt Etg) as [Etm [Hs1 Hn1]].
+  pose proof (conds_rest_skip o r1 true) as Hsk.
+  assert (Hf0 : true = true <-> @nil (tok * pos) = []) by (split; reflexivity).
+  pose proof (import_conds_vs_spec o tail Htf r1 [] st0 true Hs1 Hn1 Hf0 (Forall_nil _)) as Hcd.
+  destruct (import_conds_spec o r1 true) as [[conds k] rest_s]. cbn [fst snd] in Hcd, Hsk.
+  rewrite Hsk in Es.
+  unfold import_try. rewrite Etm. unfold conds_post in Hcd.
+  set (cm := TComment (sign ++ [32] ++ url_encode path)) in *.
+  destruct rest_s as [|y ys].
+  - (* no media query *)
+    destruct Hcd as [closes' [st1 [Ec [Hi Hcl]]]]. rewrite Ec.
+    eexists. split; [reflexivity|].
+    cbn [skip_ws at_prelude_spec] in Es. inversion Es; subst toks.
+    change (eidc (conds ++ mke GFree cm :: repeat (mke GFree TCloseCurly) k))
+      with (eidc (conds ++ [mke GFree cm] ++ repeat (mke GFree TCloseCurly) k)).
+    rewrite !eidc_app, eidc_repeat_close, app_nil_r.
+    eapply IExt_eq; [eapply IExt_trans; [exact Hi | eapply IExt_trans; [apply (IExt_tok_at st1 cm) | apply IExt_close_all; exact Hcl]]|].
+    rewrite app_nil_r. reflexivity.
+  - (* a media query follows *)
+    assert (Hmedia : match y with Leaf (TIdent _) _ => True | Block TParen _ _ _ _ => True | _ => False end).
+    { destruct y as [ty py|oy py by_ ey cy]; [destruct ty; try discriminate Es; exact I | destruct oy; try discriminate Es; exact I]. }
+    assert (Hcd' : exists closes' st1, import_conds o (r1 ++ tail) [] st0 = ImpGo ((y :: ys) ++ tail) true closes' st1 /\
+                     IExt (eidc conds) st0 st1 /\ closers closes' /\ shaped (y :: ys) = true /\ no_term (y :: ys) = true).
+    { destruct y as [ty py|oy py by_ ey cy]; [destruct ty; try contradiction; exact Hcd | destruct oy; try contradiction; exact Hcd]. }
+    destruct Hcd' as [closes' [st1 [Ec [Hi [Hcl [Hsm Hnm]]]]]]. rewrite Ec.
+    destruct (import_media_vs_spec o tail Htf (y :: ys) (cur_pos ((y :: ys) ++ tail) endp)
+                (tok_at st1 (TAt s_media) spos None) Hsm Hnm) as [Em Hm].
+    destruct (import_media o ((y :: ys) ++ tail) (cur_pos ((y :: ys) ++ tail) endp)
+                (tok_at st1 (TAt s_media) spos None)) as [mr st3].
+    cbn [fst snd] in Em, Hm. subst mr.
+    eexists. split; [reflexivity|].
+    assert (Et' : toks = conds ++ (match at_prelude_spec o (y :: ys) with
+                                   | [] => []
+                                   | _ => [mke GFree (TAt s_media)] ++ at_prelude_spec o (y :: ys) ++ [mke GFree TCurly]
+                                   end) ++ [mke GFree cm] ++
+                          repeat (mke GFree TCloseCurly) (match at_prelude_spec o (y :: ys) with [] => k | _ => S k end)).
+    { destruct y as [ty py|oy py by_ ey cy]; [destruct ty; try contradiction | destruct oy; try contradiction];
+        cbn [skip_ws node_tok is_ws_or_comment] in Es;
+        destruct (at_prelude_spec o _) as [|m0 ms]; inversion Es; reflexivity. }
+    assert (Ee : eidc toks = eidc conds ++ eidc (at_prelude_spec o (y :: ys)) ++ idc [cm]).
+    { rewrite Et'. destruct (at_prelude_spec o (y :: ys)) as [|m0 ms].
+      - rewrite !eidc_app, eidc_repeat_close. change (eidc []) with (@nil tok). change (eidc [mke GFree cm]) with (idc [cm]).
+        cbn [app]. rewrite !app_nil_r. reflexivity.
+      - rewrite !eidc_app, eidc_repeat_close.
+        change (eidc [mke GFree (TAt s_media)]) with (@nil tok). change (eidc [mke GFree TCurly]) with (@nil tok).
+        change (eidc [mke GFree cm]) with (idc [cm]).
+        cbn [app]. rewrite !app_nil_r. reflexivity. }
+    rewrite Ee.
+    eapply IExt_eq; [eapply IExt_trans; [exact Hi|];
+                     eapply IExt_trans; [apply (IExt_tok_at st1 (TAt s_media))|]; eapply IExt_trans; [exact Hm|];
+                     eapply IExt_trans; [apply (IExt_tok_at st3 TCurly)|]; eapply IExt_trans; [apply (IExt_tok_at _ cm)|];
+                     apply IExt_close_all; constructor; [reflexivity | exact Hcl]|].
+    cbn [idc filter is_idc app]. rewrite !app_nil_r. reflexivity.
+Qed.
+
 Theorem class_exact_rules : forall f o l endp at_start st,
-  shaped l = true -> import_sign o = None -> convert_host o = false ->
+  shaped l = true -> w_using_low st = false ->
   Cpl f o l = true ->
   IExt (eidc (N f o l)) st (rules f o l endp at_start st).
 Proof.
-  induction f as [|f IH]; intros o l endp at_start st Hs Hi Hh Hc; [discriminate Hc|].
+  induction f as [|f IH]; intros o l endp at_start st Hs Hu Hc; [discriminate Hc|].
   unfold N, Cpl in *. rewrite rules_spec_S in *. cbn [rules].
   pose proof (skip_ws_shaped l Hs) as Hsl.
   pose proof (skip_ws_idem l) as Hid.
@@ -288,69 +604,138 @@ Proof.
     inversion En; subst s0. clear En.
     unfold at_branch in *.
     destruct (take_prelude true r) as [[prelude term] rest] eqn:Et.
-    unfold at_rule. rewrite Hi in *. unfold at_this in *. rewrite Hi in *.
-    replace (if str_eqb_ci s s_import then @None str else None) with (@None str) in * by (destruct (str_eqb_ci s s_import); reflexivity).
+    unfold at_rule. unfold at_this in *.
     destruct (shaped_cons _ _ Hsl) as [_ Hsr].
     cbn [so_app so_normal so_complete] in *. apply andb_prop in Hc. destruct Hc as [Hc1 Hc2].
-    destruct term as [tm|]; [|discriminate Hc1].
-    set (inner := fun body => so_normal (rules_spec f o [] body false)).
-    set (good := fun body => so_complete (rules_spec f o [] body false) = true).
-    assert (Hrec : forall body be s0, shaped body = true -> good body ->
-                   IExt (eidc (inner body)) s0 ((fun body be s => rules f o body be false s) body be s0)).
-    { intros body be s0 Hb Hg. apply IH; [exact Hb | exact Hi | exact Hh | exact Hg]. }
-    assert (Hg : forall t0 p0 body e c, tm = Block t0 p0 body e c -> contain_rule_list s = true -> good body).
-    { intros t0 p0 body e c -> Hcon. unfold good. rewrite contain_same in Hcon. rewrite Hcon in Hc1.
-      cbn [so_complete] in Hc1.
-      rewrite <- Hc1. apply (proj2 (spec_normal_irrel _ _ _ _ _ _ _)). }
-    destruct (at_prelude_vs_spec o _ (contain_rule_list s) (o_mark (cur_out st)) inner good Hrec
-                r (tok_at st (TAt s) p None) prelude tm rest Hsr Et Hg) as [A B].
-    destruct (at_prelude o (fun body be s0 => rules f o body be false s0) (contain_rule_list s)
-                (o_mark (cur_out st)) r (tok_at st (TAt s) p None)) as [rest0 st'].
-    cbn [fst snd] in A, B. subst rest0.
-    rewrite eidc_app.
-    eapply IExt_trans; [|apply IH; [| exact Hi | exact Hh |]].
-    + eapply IExt_eq; [eapply IExt_trans; [apply (IExt_tok_at st (TAt s))|exact B]|].
-      rewrite contain_same. unfold term_spec, inner.
-      destruct tm as [tt tp|bo bp bb be bc]; cbn [so_normal].
-      * rewrite !eidc_app, <- !app_assoc. reflexivity.
-      * destruct (ideal_contain s); cbn [so_normal].
-        -- match goal with |- context [so_normal (rules_spec f o (?A ++ ?B) bb false)] =>
-             rewrite (proj1 (spec_normal_irrel f o (A ++ B) [] bb false false)) end.
-           rewrite !eidc_app, <- !app_assoc. reflexivity.
+    destruct (if str_eqb_ci s s_import then import_sign o else None) as [sign|].
+    + (* @import with a sign: placeholder and wrappers *)
+      destruct (take_prelude_true_spec _ _ _ _ Et) as [Hnt Hl].
+      set (st0 := if at_start then st else warn st W_IMPORT_POS (cur_pos r endp)).
+      assert (H0 : IExt [] st st0) by (unfold st0; destruct at_start; [apply IExt_refl | apply IExt_warn]).
+      (* completeness: the specification accepts the prelude and the rule ends with `;` or with the list *)
+      match goal with |- IExt (eidc (so_normal ?T ++ _)) _ _ => set (this := T) in * end.
+      assert (Main : exists toks st', import_try o sign (cur_pos r endp) r endp st0 = (Some rest, st') /\ IExt (eidc toks) st0 st' /\
+                       so_normal this = toks).
+      { unfold this in *.
+        destruct (import_spec o sign prelude) as [toks|] eqn:Es; [|destruct term as [[[] ?|? ? ? ? ?]|]; discriminate Hc1].
+        destruct term as [[tt tp|bo bp bb be bc]|].
+        - destruct tt; try (cbn [so_complete] in Hc1; discriminate Hc1).
+          assert (Hsp : shaped prelude = true) by (rewrite Hl in Hsr; apply (shaped_app_l _ _ Hsr)).
+          destruct (import_try_vs_spec o sign (cur_pos r endp) prelude (Leaf TSemi tp :: rest) endp st0 toks
+                      (or_intror (ex_intro _ tp (ex_intro _ rest eq_refl))) Hsp Hnt Es) as [st' [A B]].
+          rewrite <- Hl in A. exists toks, st'. split; [exact A | split; [exact B | reflexivity]].
+        - cbn [so_complete] in Hc1. discriminate Hc1.
+        - destruct Hl as [Hl Hrest]. subst rest.
+          assert (Hsp : shaped prelude = true) by (rewrite <- Hl; exact Hsr).
+          destruct (import_try_vs_spec o sign (cur_pos r endp) prelude [] endp st0 toks (or_introl eq_refl) Hsp Hnt Es) as [st' [A B]].
+          rewrite app_nil_r, <- Hl in A. exists toks, st'. split; [exact A | split; [exact B | reflexivity]]. }
+      destruct Main as [toks [st' [Em [Hi Hnorm]]]].
+      fold st0. rewrite Em. rewrite Hnorm, eidc_app.
+      eapply IExt_trans; [eapply IExt_eq; [eapply IExt_trans; [exact H0 | exact Hi] | reflexivity]|].
+      rewrite (proj1 (spec_normal_irrel f o [] [] rest _ false)).
+      apply IH.
+      * exact (take_prelude_rest_shaped true r prelude term rest Hsr Et).
+      * rewrite (proj1 Hi), (proj1 H0). exact Hu.
+      * rewrite <- Hc2. apply (proj2 (spec_normal_irrel _ _ _ _ _ _ _)).
+    + (* every other at-rule *)
+      destruct term as [tm|]; [|discriminate Hc1].
+      set (inner := fun body => so_normal (rules_spec f o [] body false)).
+      set (good := fun body => so_complete (rules_spec f o [] body false) = true).
+      assert (Hrec : forall body be s0, shaped body = true -> good body -> w_using_low s0 = false ->
+                     IExt (eidc (inner body)) s0 ((fun body be s => rules f o body be false s) body be s0)).
+      { intros body be s0 Hb Hg Hu0. apply IH; [exact Hb | exact Hu0 | exact Hg]. }
+      assert (Hg : forall t0 p0 body e c, tm = Block t0 p0 body e c -> contain_rule_list s = true -> good body).
+      { intros t0 p0 body e c -> Hcon. unfold good. rewrite contain_same in Hcon. rewrite Hcon in Hc1.
+        cbn [so_complete] in Hc1.
+        rewrite <- Hc1. apply (proj2 (spec_normal_irrel _ _ _ _ _ _ _)). }
+      assert (Hu1 : w_using_low (tok_at st (TAt s) p None) = false) by (rewrite (proj1 (IExt_tok_at st (TAt s) p None)); exact Hu).
+      destruct (at_prelude_vs_spec o _ (contain_rule_list s) (o_mark (cur_out st)) inner good Hrec
+                  r (tok_at st (TAt s) p None) prelude tm rest Hsr Hu1 Et Hg) as [A B].
+      destruct (at_prelude o (fun body be s0 => rules f o body be false s0) (contain_rule_list s)
+                  (o_mark (cur_out st)) r (tok_at st (TAt s) p None)) as [rest0 st'].
+      cbn [fst snd] in A, B. subst rest0.
+      rewrite eidc_app.
+      eapply IExt_trans; [|apply IH].
+      * eapply IExt_eq; [eapply IExt_trans; [apply (IExt_tok_at st (TAt s))|exact B]|].
+        rewrite contain_same. unfold term_spec, inner.
+        destruct tm as [tt tp|bo bp bb be bc]; cbn [so_normal].
         -- rewrite !eidc_app, <- !app_assoc. reflexivity.
-    + exact (take_prelude_rest_shaped true r prelude (Some tm) rest Hsr Et).
-    + rewrite <- Hc2. apply (proj2 (spec_normal_irrel _ _ _ _ _ _ _)).
+        -- destruct (ideal_contain s); cbn [so_normal].
+           ++ match goal with |- context [so_normal (rules_spec f o (?A ++ ?B) bb false)] =>
+                rewrite (proj1 (spec_normal_irrel f o (A ++ B) [] bb false false)) end.
+              rewrite !eidc_app, <- !app_assoc. reflexivity.
+           ++ rewrite !eidc_app, <- !app_assoc. reflexivity.
+      * exact (take_prelude_rest_shaped true r prelude (Some tm) rest Hsr Et).
+      * rewrite (proj1 B), Hu1. reflexivity.
+      * rewrite <- Hc2. apply (proj2 (spec_normal_irrel _ _ _ _ _ _ _)).
   - (* a qualified rule *)
     assert (Ea : at_rule o (fun body be s => rules f o body be false s) (x :: r) endp at_start st = None).
     { unfold at_rule. destruct x as [t p|? ? ? ? ?]; [|reflexivity]. destruct t; try reflexivity. discriminate En. }
     rewrite Ea. unfold q_branch in *.
     destruct (take_prelude false (x :: r)) as [[prelude term] rest] eqn:Et.
     pose proof (take_prelude_false_spec _ _ _ _ Et) as T.
-    unfold q_this in *. rewrite Hh in *.
+    unfold q_this in *.
     destruct term as [[tt tp|bo bp bb be bc]|];
       [contradiction | | cbn [so_app so_complete andb] in Hc; discriminate Hc].
     destruct bo; try contradiction. destruct T as [El Hn].
-    cbn [so_app so_normal so_complete andb] in *.
-    unfold qrule, qr_main. rewrite Hh, Hid, El.
     pose proof Hsl as Hsl'. rewrite El in Hsl'.
     pose proof (shaped_app_l _ _ Hsl') as Hsp.
     destruct (shaped_blk _ _ _ _ _ _ (shaped_app _ _ Hsl')) as [_ [Hsb Hsr]].
-    destruct (class_exact_rule o prelude bp bb be bc rest false false st true false false Hsp Hsb Hn) as [A B].
-    destruct (qr_loop o (prelude ++ Block TCurly bp bb be bc :: rest) false false st) as [rest0 st'].
-    cbn [fst snd] in A, B. subst rest0.
-    rewrite eidc_app. eapply IExt_trans; [exact B|].
-    apply IH; [exact Hsr | exact Hi | exact Hh | exact Hc].
+    assert (Hq : exists X st', qrule o (x :: r) endp st = (rest, st') /\ IExt X st st' /\
+                   X = eidc (so_normal (match (if convert_host o then host_kind_of prelude else HostNone) with
+                                        | HostPure => mkso [] (concat [] ++ host_selector o ++ ([mke GFree TCurly] ++ val_spec o false bb None false ++ [mke GFree TCloseCurly])
+                                                               ++ repeat (mke GFree TCloseCurly) (length (@nil (list etok)))) [] [] true
+                                        | HostCombined => mkso [] [] [W_HOST] [] true
+                                        | HostNone => mkso (sel_spec o false prelude true false false false ++
+                                                            ([mke GFree TCurly] ++ val_spec o false bb None false ++ [mke GFree TCloseCurly])) [] [] [] true
+                                        end))).
+    { destruct (class_exact_rule o prelude bp bb be bc rest false false st true false false Hsp Hsb Hn) as [A B].
+      destruct (convert_host o) eqn:Eh.
+      - pose proof (CssHostSpec.qrule_matches_spec bp be bb bc rest o prelude endp st Eh (no_curly_equiv _ Hn)) as M.
+        rewrite <- El in M.
+        destruct (host_kind_of prelude).
+        + (* none: the selector walker *)
+          rewrite M. rewrite <- CssHostSpec.skip_ws_app, <- El, Hid, El.
+          destruct (qr_loop o (prelude ++ Block TCurly bp bb be bc :: rest) false false st) as [rest0 st'].
+          cbn [fst snd] in A, B. subst rest0. eexists _, st'. split; [reflexivity|]. split; [exact B | reflexivity].
+        + (* pure: moved to the low-priority output *)
+          rewrite M. eexists [], _. split; [reflexivity|]. split; [apply host_emit_IExt; exact Hu | reflexivity].
+        + (* combined: dropped with a warning *)
+          destruct M as [wp M]. rewrite M. eexists [], _. split; [reflexivity|]. split; [apply IExt_warn | reflexivity].
+      - unfold qrule, qr_main. rewrite Eh, Hid, El.
+        destruct (qr_loop o (prelude ++ Block TCurly bp bb be bc :: rest) false false st) as [rest0 st'].
+        cbn [fst snd] in A, B. subst rest0. eexists _, st'. split; [reflexivity|]. split; [exact B | reflexivity]. }
+    destruct Hq as [X [st' [Eq [HX EX]]]]. rewrite Eq.
+    assert (Hc' : so_complete (rules_spec f o [] rest false) = true).
+    { destruct (if convert_host o then host_kind_of prelude else HostNone); cbn [so_app so_complete andb] in Hc; exact Hc. }
+    assert (Hnorm : so_normal (so_app (match (if convert_host o then host_kind_of prelude else HostNone) with
+                                        | HostPure => mkso [] (concat [] ++ host_selector o ++ ([mke GFree TCurly] ++ val_spec o false bb None false ++ [mke GFree TCloseCurly])
+                                                               ++ repeat (mke GFree TCloseCurly) (length (@nil (list etok)))) [] [] true
+                                        | HostCombined => mkso [] [] [W_HOST] [] true
+                                        | HostNone => mkso (sel_spec o false prelude true false false false ++
+                                                            ([mke GFree TCurly] ++ val_spec o false bb None false ++ [mke GFree TCloseCurly])) [] [] [] true
+                                        end) (rules_spec f o [] rest false)) =
+                    so_normal (match (if convert_host o then host_kind_of prelude else HostNone) with
+                                        | HostPure => mkso [] (concat [] ++ host_selector o ++ ([mke GFree TCurly] ++ val_spec o false bb None false ++ [mke GFree TCloseCurly])
+                                                               ++ repeat (mke GFree TCloseCurly) (length (@nil (list etok)))) [] [] true
+                                        | HostCombined => mkso [] [] [W_HOST] [] true
+                                        | HostNone => mkso (sel_spec o false prelude true false false false ++
+                                                            ([mke GFree TCurly] ++ val_spec o false bb None false ++ [mke GFree TCloseCurly])) [] [] [] true
+                                        end) ++ so_normal (rules_spec f o [] rest false)) by reflexivity.
+    rewrite Hnorm, eidc_app, <- EX.
+    eapply IExt_trans; [exact HX|].
+    apply IH; [exact Hsr | rewrite (proj1 HX); exact Hu | exact Hc'].
 Qed.
 
-(* the pinned form *)
+(* the pinned form: every option set *)
 Theorem class_exact_sheet : forall o tree endp,
-  shaped tree = true -> import_sign o = None -> convert_host o = false ->
+  shaped tree = true ->
   so_complete (expected o tree) = true ->
   idc (o_tokens (w_normal (transform o tree endp))) = idc (map e_tok (so_normal (expected o tree))).
 Proof.
-  intros o tree endp Hs Hi Hh Hc. unfold transform, expected in *.
+  intros o tree endp Hs Hc. unfold transform, expected in *.
   rewrite (proj2 (spec_normal_irrel _ o [] [] tree true false)) in Hc.
-  destruct (class_exact_rules (S (nodes_size tree)) o tree endp true w_init Hs Hi Hh Hc) as [U E].
+  destruct (class_exact_rules (S (nodes_size tree)) o tree endp true w_init Hs eq_refl Hc) as [U E].
   unfold iout, cur_out in E. rewrite U in E. cbn [w_init w_using_low w_normal] in E.
   change (idc (o_tokens o_init)) with (@nil tok) in E. cbn [app] in E.
   rewrite E. unfold N, eidc. rewrite (proj1 (spec_normal_irrel _ o [] [] tree false true)). reflexivity.
